@@ -28,20 +28,24 @@ structure State where
   backlog : List (Nat × Bytes) := []     -- sent by peers, not yet read by the receivers (arrival order)
   parkedRecv : List Nat := []
   closed : Bool := false
+  idLen : Nat := 4                       -- bytes of the body that become the header (XREQ, XSURVEYOR: 4; XSUB: 0)
+  holds : Bool := true                   -- a receiver keeps its message while the queue is full (XSUB: drops it)
   -- ghost history: what the receivers read from each pipe; what Recv returned
   rin : List (Nat × Bytes) := []
   rout : List (Nat × Msg) := []
 deriving Repr, BEq
 
 def init : State := {}
+/-- XSUB (protocol/xsub): nothing is split off, and a message that finds the queue full is dropped at once -/
+def initSub : State := { idLen := 0, holds := false }
 
 /-- a receiver that holds nothing reads the next message of its pipe -/
 def nextBacklog (s : State) : Option (State × List (Nat × Ev)) :=
   match s.backlog.find? (fun pb => !(s.held.any (fun x => x.1 == pb.1))) with
   | some (p, b) =>
-    if b.length < 4 then some ({ s with backlog := s.backlog.erase (p, b), rin := s.rin ++ [(p, b)] }, [])
+    if b.length < s.idLen then some ({ s with backlog := s.backlog.erase (p, b), rin := s.rin ++ [(p, b)] }, [])
     else some ({ s with backlog := s.backlog.erase (p, b), rin := s.rin ++ [(p, b)],
-                        held := s.held ++ [(p, (b.take 4, b.drop 4))] }, [])
+                        held := s.held ++ [(p, (b.take s.idLen, b.drop s.idLen))] }, [])
   | none => none
 
 def progress (s : State) : Option (State × List (Nat × Ev)) :=
@@ -52,7 +56,8 @@ def progress (s : State) : Option (State × List (Nat × Ev)) :=
   | (p, m) :: bl =>
     match s.parkedRecv with
     | call :: rest => some ({ s with parkedRecv := rest, held := bl, rout := s.rout ++ [(p, m)] }, [(call, Ev.retMsg call m.1 m.2)])
-    | [] => if s.recvQ.length < s.recvCap then some ({ s with recvQ := s.recvQ ++ [(p, m)], held := bl }, []) else nextBacklog s
+    | [] => if s.recvQ.length < s.recvCap then some ({ s with recvQ := s.recvQ ++ [(p, m)], held := bl }, [])
+            else if s.holds then nextBacklog s else some ({ s with held := bl }, [])
   | [] => nextBacklog s
 
 def settle : Nat → State → State × List (Nat × Ev)
@@ -97,6 +102,7 @@ def step (s : State) (op : List String) : List (State × List Ev) :=
 
 inductive Reach : State → Prop
  | init : Reach init
+ | initSub : Reach initSub
  | step (s : State) (op : List String) (r : State × List Ev) : Reach s → r ∈ step s op → Reach r.1
 
 /-- header and body glued together again, with the pipe -/
@@ -107,9 +113,10 @@ def line (s : State) : List (Nat × Msg) := s.rout ++ s.recvQ ++ s.held
 
 structure Inv (s : State) : Prop where
   order : ((line s).map glue).Sublist s.rin
-  hdr4 : ∀ x ∈ line s, x.2.1.length = 4
+  hdr4 : ∀ x ∈ line s, x.2.1.length = s.idLen
 
 theorem init_inv : Inv init := ⟨by simp [init, line], by simp [init, line]⟩
+theorem initSub_inv : Inv initSub := ⟨by simp [initSub, line], by simp [initSub, line]⟩
 
 theorem nextBacklog_inv (s : State) (h : Inv s) (s' : State) (evs) (hp : nextBacklog s = some (s', evs)) : Inv s' := by
   unfold nextBacklog at hp
@@ -125,10 +132,10 @@ theorem nextBacklog_inv (s : State) (h : Inv s) (s' : State) (evs) (hp : nextBac
     · rename_i hlen
       simp only [Option.some.injEq, Prod.mk.injEq] at hp
       obtain ⟨rfl, _⟩ := hp
-      have hl : 4 ≤ b.length := by omega
+      have hl : s.idLen ≤ b.length := by omega
       constructor
       · have h1 := List.Sublist.append h.order (List.Sublist.refl [((p, b) : Nat × Bytes)])
-        have hg : glue (p, (b.take 4, b.drop 4)) = (p, b) := by simp [glue]
+        have hg : glue (p, (b.take s.idLen, b.drop s.idLen)) = (p, b) := by simp [glue]
         simp only [line, List.map_append, List.map_cons, List.map_nil, hg] at h1 ⊢
         simpa [List.append_assoc] using h1
       · intro x hx
@@ -137,7 +144,7 @@ theorem nextBacklog_inv (s : State) (h : Inv s) (s' : State) (evs) (hp : nextBac
         · exact h.hdr4 x (by simp [line, hx])
         · exact h.hdr4 x (by simp [line, hx])
         · exact h.hdr4 x (by simp [line, hx])
-        · simp [List.length_take]; omega
+        · simp only [List.length_take]; omega
   · simp at hp
 
 theorem progress_inv (s : State) (h : Inv s) (s' : State) (evs) (hp : progress s = some (s', evs)) : Inv s' := by
@@ -169,7 +176,14 @@ theorem progress_inv (s : State) (h : Inv s) (s' : State) (evs) (hp : progress s
           have e : line { s with recvQ := s.recvQ ++ [(p, m)], held := bl } = line s := by
             simp [line, hbl, List.append_assoc]
           exact ⟨by rw [e]; exact h.order, by rw [e]; exact h.hdr4⟩
-        · exact nextBacklog_inv s h s' evs hp
+        · split at hp
+          · exact nextBacklog_inv s h s' evs hp
+          · simp only [Option.some.injEq, Prod.mk.injEq] at hp
+            obtain ⟨rfl, _⟩ := hp
+            have hl : (line { s with held := bl }).Sublist (line s) := by
+              simp only [line, hbl]
+              exact List.Sublist.append (List.Sublist.refl _) (List.sublist_cons_self _ _)
+            exact ⟨(hl.map glue).trans h.order, fun x hx => h.hdr4 x (hl.subset hx)⟩
     · exact nextBacklog_inv s h s' evs hp
 
 theorem settle_inv (fuel : Nat) (s : State) (h : Inv s) : Inv (settle fuel s).1 := by
@@ -189,11 +203,11 @@ theorem settled_inv (s : State) (pre : List Ev) (evs) (h : Inv s) : Inv (settled
   exact settle_inv _ s h
 
 /-- an update that only shortens the line (and leaves `rin` alone) keeps the invariant -/
-theorem shrink_inv (s t : State) (h : Inv s) (hr : t.rin = s.rin) (hl : (line t).Sublist (line s)) : Inv t :=
-  ⟨by rw [hr]; exact (hl.map glue).trans h.order, fun x hx => h.hdr4 x (hl.subset hx)⟩
+theorem shrink_inv (s t : State) (h : Inv s) (hr : t.rin = s.rin) (hi : t.idLen = s.idLen) (hl : (line t).Sublist (line s)) : Inv t :=
+  ⟨by rw [hr]; exact (hl.map glue).trans h.order, fun x hx => by rw [hi]; exact h.hdr4 x (hl.subset hx)⟩
 
-theorem same_inv (s t : State) (h : Inv s) (hr : t.rin = s.rin) (hl : line t = line s) : Inv t :=
-  shrink_inv s t h hr (by rw [hl]; exact List.Sublist.refl _)
+theorem same_inv (s t : State) (h : Inv s) (hr : t.rin = s.rin) (hi : t.idLen = s.idLen) (hl : line t = line s) : Inv t :=
+  shrink_inv s t h hr hi (by rw [hl]; exact List.Sublist.refl _)
 
 theorem step_inv (s : State) (op : List String) (h : Inv s) : ∀ o ∈ step s op, Inv o.1 := by
   intro o ho
@@ -201,17 +215,18 @@ theorem step_inv (s : State) (op : List String) (h : Inv s) : ∀ o ∈ step s o
   split at ho
   · split at ho <;> simp at ho <;> subst ho
     · exact h
-    · exact same_inv s _ h rfl rfl
+    · exact same_inv s _ h rfl rfl rfl
   · -- rmpipe
     simp only [] at ho
     simp at ho; subst ho
     apply settled_inv
-    refine shrink_inv s _ h ?_ ?_
+    refine shrink_inv s _ h ?_ ?_ ?_
+    · rfl
     · rfl
     simp only [line]
     exact List.Sublist.append (List.Sublist.refl _) (List.filter_sublist)
   · split at ho
-    · simp at ho; subst ho; exact settled_inv _ _ _ (same_inv s _ h rfl rfl)
+    · simp at ho; subst ho; exact settled_inv _ _ _ (same_inv s _ h rfl rfl rfl)
     · simp at ho; subst ho; exact h
   · -- recv
     simp only [] at ho
@@ -223,27 +238,116 @@ theorem step_inv (s : State) (op : List String) (h : Inv s) : ∀ o ∈ step s o
         rcases ho with rfl | rfl
         · exact h
         · apply settled_inv
-          refine same_inv s _ h ?_ ?_
+          refine same_inv s _ h ?_ ?_ ?_
+          · rfl
           · rfl
           simp [line, hq, List.append_assoc]
-    · simp at ho; subst ho; exact settled_inv _ _ _ (same_inv s _ h rfl rfl)
+    · simp at ho; subst ho; exact settled_inv _ _ _ (same_inv s _ h rfl rfl rfl)
   · -- READQ-LEN
     simp at ho; subst ho
     apply settled_inv
-    refine shrink_inv s _ h ?_ ?_
+    refine shrink_inv s _ h ?_ ?_ ?_
+    · rfl
     · rfl
     simp only [line, List.append_nil]
     exact (List.sublist_append_left _ _).trans (List.sublist_append_left _ _)
   · simp at ho; subst ho; exact h
   · split at ho
     · simp at ho; subst ho; exact h
-    · simp at ho; subst ho; exact same_inv s _ h rfl rfl
+    · simp at ho; subst ho; exact same_inv s _ h rfl rfl rfl
   · simp at ho
 
 theorem reach_inv (s : State) (h : Reach s) : Inv s := by
   induction h with
   | init => exact init_inv
+  | initSub => exact initSub_inv
   | step s op o _ ho ih => exact step_inv s op ih o ho
+
+/-! the flavour (`idLen`, `holds`) never changes -/
+def sameKind (s t : State) : Prop := t.idLen = s.idLen ∧ t.holds = s.holds
+
+theorem nextBacklog_kind (s s' : State) (evs) (hp : nextBacklog s = some (s', evs)) : sameKind s s' := by
+  unfold nextBacklog at hp
+  split at hp
+  · split at hp <;> simp only [Option.some.injEq, Prod.mk.injEq] at hp <;> obtain ⟨rfl, _⟩ := hp <;> exact ⟨rfl, rfl⟩
+  · simp at hp
+
+theorem progress_kind (s s' : State) (evs) (hp : progress s = some (s', evs)) : sameKind s s' := by
+  unfold progress at hp
+  split at hp
+  · simp only [Option.some.injEq, Prod.mk.injEq] at hp; obtain ⟨rfl, _⟩ := hp; exact ⟨rfl, rfl⟩
+  · split at hp
+    · split at hp
+      · simp only [Option.some.injEq, Prod.mk.injEq] at hp; obtain ⟨rfl, _⟩ := hp; exact ⟨rfl, rfl⟩
+      · split at hp
+        · simp only [Option.some.injEq, Prod.mk.injEq] at hp; obtain ⟨rfl, _⟩ := hp; exact ⟨rfl, rfl⟩
+        · split at hp
+          · exact nextBacklog_kind s s' evs hp
+          · simp only [Option.some.injEq, Prod.mk.injEq] at hp; obtain ⟨rfl, _⟩ := hp; exact ⟨rfl, rfl⟩
+    · exact nextBacklog_kind s s' evs hp
+
+theorem settle_kind (fuel : Nat) (s : State) : sameKind s (settle fuel s).1 := by
+  induction fuel generalizing s with
+  | zero => exact ⟨rfl, rfl⟩
+  | succ n ih =>
+    simp only [settle]
+    cases hp : progress s with
+    | none => exact ⟨rfl, rfl⟩
+    | some r =>
+      obtain ⟨s', evs⟩ := r
+      simp only []
+      have h1 := progress_kind s s' evs hp
+      have h2 := ih s'
+      exact ⟨h2.1.trans h1.1, h2.2.trans h1.2⟩
+
+theorem settled_kind (s : State) (pre : List Ev) (evs) : sameKind s (settled s pre evs).1 := by
+  unfold settled
+  exact settle_kind _ s
+
+theorem step_kind (s : State) (op : List String) : ∀ o ∈ step s op, sameKind s o.1 := by
+  intro o ho
+  unfold step at ho
+  split at ho
+  · split at ho <;> simp at ho <;> subst ho <;> exact ⟨rfl, rfl⟩
+  · simp only [] at ho
+    simp at ho; subst ho
+    exact settled_kind _ _ _
+  · split at ho
+    · simp at ho; subst ho; exact settled_kind _ _ _
+    · simp at ho; subst ho; exact ⟨rfl, rfl⟩
+  · simp only [] at ho
+    split at ho
+    · split at ho
+      · simp at ho; subst ho; exact ⟨rfl, rfl⟩
+      · simp at ho
+        rcases ho with rfl | rfl
+        · exact ⟨rfl, rfl⟩
+        · exact settled_kind _ _ _
+    · simp at ho; subst ho; exact settled_kind _ _ _
+  · simp at ho; subst ho
+    exact settled_kind _ _ _
+  · simp at ho; subst ho; exact ⟨rfl, rfl⟩
+  · split at ho
+    · simp at ho; subst ho; exact ⟨rfl, rfl⟩
+    · simp at ho; subst ho; exact ⟨rfl, rfl⟩
+  · simp at ho
+
+/-- the states a request-id socket (XREQ, XSURVEYOR) can reach, and the ones XSUB can reach -/
+inductive ReachFrom (s0 : State) : State → Prop
+ | init : ReachFrom s0 s0
+ | step (s : State) (op : List String) (r : State × List Ev) : ReachFrom s0 s → r ∈ step s op → ReachFrom s0 r.1
+
+theorem reachFrom_kind (s0 s : State) (h : ReachFrom s0 s) : sameKind s0 s := by
+  induction h with
+  | init => exact ⟨rfl, rfl⟩
+  | step s op r _ hr ih =>
+    have := step_kind s op r hr
+    exact ⟨this.1.trans ih.1, this.2.trans ih.2⟩
+
+theorem reachFrom_reach (s0 s : State) (h0 : Reach s0) (h : ReachFrom s0 s) : Reach s := by
+  induction h with
+  | init => exact h0
+  | step s op r _ hr ih => exact Reach.step s op r ih hr
 
 end RawRecv
 end Proto
